@@ -35,8 +35,10 @@ RULE = ('Every connected DAG on n topologically labelled units (0-3 parallel str
 ASSUMPTIONS = [
     'units are AbstractUnit subclasses with fixed port counts and AbstractStream streams (F_mass = 0 for every feed, so the "largest feed" is the '
     'first feed in unit-list order; the prio dimension of c19.acyclic.prio additionally gives every single feed the top feed priority)',
-    'n <= 4 units: complete (thorough) for acyclic flowsheets; n = 5 with minimal port counts x all 120 orders; n = 6 with in/out degree <= 2 x the 12 '
-    'orders {identity, reverse, all rotations of both}; sizes 7-10 of the quantifier are NOT explored',
+    'n <= 4 units: complete (thorough) for acyclic flowsheets in the edges-first port layout; n = 5 with minimal port counts x all 120 orders; n = 6 with in/out degree <= 2 (parallel streams) and '
+    'n = 6 with single streams and degree <= 3 (14 546 flowsheets) x the 12 orders {identity, reverse, all rotations of both} (quick: identity and reverse); sizes 7-10 of the quantifier are NOT explored',
+    'port layout: edges-first and feeds/products-first everywhere; every interleaving of the free ports with the edge ports of a port list (applied uniformly over the units: 9 in/out choices x 2 partner '
+    'orders) for all n <= 3 flowsheets and for n = 4 with port counts deviating from the minimum in <= 1 place (n = 4: thorough; quick: products-first with 8 fixed orders)',
     'cyclic flowsheets: a back edge gets an additional outlet port on the later unit and an additional inlet port on the earlier one; the feed and '
     'product ports of the acyclic flowsheet are kept, so every unit still reaches a product and every source unit still has a feed; no self loops',
     'cyclic: "contains exactly the given units" is checked as set equality (a unit shared by two loops may be listed in both sub-networks); '
@@ -176,7 +178,14 @@ def flowsheets(n, backs=(0,), ports='all', maxpar=3, maxdeg=3, layouts=(0,), hss
             rng = port_ranges(n, M, B, maxdeg)
             if rng is None: continue
             for fp in port_choices(rng, ports):
+                seen = set()
                 for layout in layouts:
+                    if len(layouts) > 2:
+                        # different layout codes can give the same port lists (e.g. no free port): keep the first
+                        mm = Model.from_config((n, M, B, fp[:n], fp[n:], layout, 0))
+                        sig = (tuple(map(tuple, mm.ins)), tuple(map(tuple, mm.outs)))
+                        if sig in seen: continue
+                        seen.add(sig)
                     for hs in hss:
                         yield (n, M, B, fp[:n], fp[n:], layout, hs)
 
@@ -196,6 +205,22 @@ def fixed_orders(n):
 
 
 # ---- reference model -----------------------------------------------------------------------------
+
+def _interleave(edges, free, r):
+    L = len(edges) + len(free)
+    combos = list(itertools.combinations(range(L), len(free)))
+    pos = combos[min(r, len(combos) - 1)] if r < 2 else combos[-1]
+    out = [None] * L
+    fi = iter(free)
+    for p in pos: out[p] = next(fi)
+    ei = iter(edges)
+    for p in range(L):
+        if out[p] is None: out[p] = next(ei)
+    return out
+
+
+INTERLEAVINGS = tuple(range(10, 28))
+
 
 class Model:
     """plain-python flowsheet: per unit the list of in-ports and out-ports, each port = stream index;
@@ -226,7 +251,14 @@ class Model:
                 k = len(src); src.append(i); snk.append(None); prods[i].append(k)
         m.ins = []; m.outs = []
         for i in range(n):
-            if layout == 0:
+            if layout >= 10:
+                # general interleaving: code = 10 + desc*9 + rin*3 + rout; the free (feed / product) ports take the r-th choice of positions among the
+                # C(len, free) possible ones (r = 0 first ... 2 last; a port list has at most 3 ports, so r in 0..2 reaches every interleaving of a list)
+                code = layout - 10
+                desc, rin, rout = code // 9, (code % 9) // 3, code % 3
+                m.ins.append(_interleave([k for _, k in sorted(fwd_in[i], reverse=bool(desc))] + [k for _, k in sorted(back_in[i], reverse=bool(desc))], feeds[i], rin))
+                m.outs.append(_interleave([k for _, k in sorted(fwd_out[i], reverse=bool(desc))] + [k for _, k in sorted(back_out[i], reverse=bool(desc))], prods[i], rout))
+            elif layout == 0:
                 m.ins.append([k for _, k in sorted(fwd_in[i])] + [k for _, k in sorted(back_in[i])] + feeds[i])
                 m.outs.append([k for _, k in sorted(fwd_out[i])] + [k for _, k in sorted(back_out[i])] + prods[i])
             else:
@@ -452,8 +484,11 @@ class C19(System):
             return [('net', p) for p in itertools.permutations(range(n))]
         acts = []
         if not self.history or st.model.in_quantifier():
-            if self.orders == 'all':
+            mode = self.orders.get(self._tier, 'all') if isinstance(self.orders, dict) else self.orders
+            if mode == 'all':
                 acts += [('net', p) for p in itertools.permutations(range(n))]
+            elif mode == 'ends2':
+                acts += [('net', tuple(range(n))), ('net', tuple(range(n))[::-1])]
             else:
                 acts += [('net', p) for p in fixed_orders(n)]
         if self.history:
@@ -709,7 +744,15 @@ SYSTEMS = [
     C19('c19.acyclic.n2-3',
         _chain(_G(2, layouts=(0, 1)), _G(3, layouts=(0, 1))),
         _chain(_G(2, layouts=(0, 1), hss=(0, 1)), _G(3, layouts=(0, 1), hss=(0, 1))), twice=True),
-    C19('c19.acyclic.n4.dev1', _G(4, ports='dev1'), _G(4, ports='dev1', layouts=(1,))),
+    C19('c19.acyclic.n4.dev1', _G(4, ports='dev1'), _G(4, ports='dev1', layouts=(1,) + INTERLEAVINGS)),
+    # feed / product ports BEFORE the edge ports (side draws): quick slice of the thorough space of c19.acyclic.n4.dev1
+    C19('c19.acyclic.n4.dev1.products-first', _G(4, ports='dev1', layouts=(1,)), None, orders={'quick': 'fixed8'}),
+    # every interleaving of feed / product ports with edge ports in each port list (9 in/out choices x ascending / descending partner order)
+    C19('c19.acyclic.n2-3.interleave', _chain(_G(2, layouts=INTERLEAVINGS), _G(3, layouts=INTERLEAVINGS)),
+        _chain(_G(2, layouts=INTERLEAVINGS), _G(3, layouts=INTERLEAVINGS))),
+    # six units, single streams, degree <= 3 (converging branches), minimal ports
+    C19('c19.acyclic.n6.simple3', _G(6, ports='min', maxpar=1, maxdeg=3, layouts=(0, 1)), _G(6, ports='min', maxpar=1, maxdeg=3, layouts=(0, 1)),
+        orders={'quick': 'ends2', 'thorough': 'fixed12'}),
     C19('c19.cyclic.n2-3',
         _chain(_G(2, backs=(1, 2, 3), hss=(0, 1)), _G(3, backs=(1, 2, 3), hss=(0, 1))),
         _chain(_G(2, backs=(1, 2, 3), hss=(0, 1), layouts=(0, 1)), _G(3, backs=(1, 2, 3), hss=(0, 1), layouts=(0, 1))), twice=True),
